@@ -87,6 +87,8 @@ class Policy:
     # acquisition path, another executable on the stack): (o, a) -> number of requests it grants before it starts refusing
     grants = {}
     asked = {}
+    # elements the guard refuses whatever container they are reached through (a guard validates the value it hands out)
+    deny_values = frozenset()
 
 
 def guarded_getattr(ob, name):
@@ -120,6 +122,9 @@ def guarded_getitem(ob, index):
     except BaseException:
         LOG.append({'e': 'gexit', 'o': o, 'a': a, 'r': 'error'})
         raise
+    if Policy.deny_values and oid_of(v) in Policy.deny_values:
+        LOG.append({'e': 'gexit', 'o': o, 'a': a, 'r': 'deny'})
+        raise Unauthorized(a)
     LOG.append({'e': 'gexit', 'o': o, 'a': a, 'r': 'allow'})
     return v
 
@@ -615,6 +620,28 @@ def main(tier):
                         ra['obs'] = 'items'
                     recs.append(ra)
                     meta.append((ch2, 'denied', ra, oa, rb, ob))
+    # loops shown in sorted order: the guard is asked about the elements themselves, whatever list the tag iterates over
+    for opts in ('sort=k', 'sort=k,pub', 'sort_expr="\'k\'"', 'sort=k size=9', 'sort=k/cmp', 'sort=k prefix=it', 'sort=k no_push_item'):
+        for skip in (True, False):
+            for r in range(0, 5):
+                for dset in itertools.combinations(range(4), r):
+                    src = '<dtml-in q %s%s><dtml-var "_[\'sequence-item\'].pub">;</dtml-in>' % (opts, ' skip_unauthorized' if skip else '')
+                    els = [Client('e%d' % i, k=i, pub='v%d' % i) for i in range(4)]
+                    Policy.deny = frozenset()
+                    Policy.deny_values = frozenset('e%d' % i for i in dset)
+                    del LOG[:]
+                    try:
+                        oa = str(gclass()(src)(q=els))
+                        obs = 'items'
+                    except BaseException as e:  # noqa
+                        oa, obs = 'RAISED %s' % type(e).__name__, ('unauthorized' if type(e).__name__ == 'Unauthorized' else 'other:' + type(e).__name__)
+                    finally:
+                        Policy.deny_values = frozenset()
+                    ra = {'ch': 'in-item-sorted', 'kind': 'initem-skip' if skip else 'initem', 'cls': 'denied', 'ev': list(LOG), 'obs': obs,
+                          'shown': False, 'po': 'c', 'pa': '0', 'src': src, 'dset': list(dset), 'ctx': 'sorted',
+                          'out_items': [int(x[1]) for x in oa.split(';') if x[:1] == 'v'] if obs == 'items' else []}
+                    recs.append(ra)
+                    meta.append((('in-item-sorted', ra['kind'], src, None, ('c', '0')), 'denied', ra, oa, ra, oa))
     # dtml-tree branches: every subset of refused branches of a node with four branches
     for skip in (True, False):
         for r in range(0, 5):
